@@ -136,6 +136,15 @@ def generate(run_seed, prop, tier="quick"):
         else:
             ops.append({"op": "relabel_pair", "g": rng.randrange(len(sources)), "bond": rng.choice([1, 0.35, 2.5]), "np_seed": rng.randrange(2 ** 32),
                         "relabel": rng.choice(["shuffle", "strings", "offset"]), "relabel_seed": rng.randrange(2 ** 30)})
+    if rng.random() < 0.2:
+        # the caller keeps the bond length in ONE mutable numpy object and passes it to every layout call
+        shared = rng.choice([1.5, 0.35, 2.0])
+        for op in ops:
+            if op["op"] == "layout":
+                op["bond"] = {"shared": shared, "form": rng.choice(["0d", "1elem"]) if False else "0d"}
+        if sum(1 for o in ops if o["op"] == "layout") < 2:
+            ops.append({"op": "layout", "g": rng.randrange(len(sources)), "bond": {"shared": shared, "form": "0d"},
+                        "np_seed": rng.randrange(2 ** 32), "relabel": "none", "relabel_seed": 0, "align": None})
     if len(sources) > 1:
         # make sure every molecule is laid out at least once, the later ones after the earlier ones
         for g in range(len(sources)):
@@ -243,10 +252,24 @@ def run_history(scenario):
         stats["nodes"] = stats.get("nodes", 0) + len(g)
         stats["has_ez"] = stats.get("has_ez", 0) + int(any("ez_isomer" in g.nodes[n] for n in g.nodes))
 
+    shared_objects = {}
+
     def bond_value(value):
+        if isinstance(value, dict) and "shared" in value:
+            if "obj" not in shared_objects:
+                shared_objects["obj"] = np.array(float(value["shared"]))     # one 0-d array for the whole history
+            return shared_objects["obj"]
         if isinstance(value, dict) and "np" in value:
             return getattr(np, value["np"])(value["v"])
         return value
+
+    def requested(value):
+        """The bond length the caller asked for, as a plain float (never read back from a mutable object)."""
+        if isinstance(value, dict) and "shared" in value:
+            return float(value["shared"])
+        if isinstance(value, dict) and "np" in value:
+            return float(getattr(np, value["np"])(value["v"]))
+        return float(value)
 
     def state_digest():
         return sha(repr(np.random.get_state()[1][:8].tolist()) + str(np.random.get_state()[2]))
@@ -271,7 +294,7 @@ def run_history(scenario):
                     kwargs["align_with"] = np.array(op["align"])
                 edges_before = list(work.edges)
                 pos = vespr_layout(work, **kwargs)
-                _check(work, pos, float(bond), seq, violations, "layout(relabel=%s)" % op["relabel"], edges=edges_before)
+                _check(work, pos, requested(op["bond"]), seq, violations, "layout(relabel=%s)" % op["relabel"], edges=edges_before)
                 event["out"] = "ok"
                 event["dig"] = sha(jdump(sorted([repr(k), [round(float(x), 6) for x in np.asarray(v, dtype=float)]] for k, v in pos.items())))
                 stats["layouts"] = stats.get("layouts", 0) + 1
